@@ -27,7 +27,7 @@ def plant(t, rng, tg, n):
     for _ in range(n):
         nodes = [x for _, x in gen.nodes_of(t)]
         tgt = rng.choice(nodes)
-        k = rng.choice(["unknown", "misplaced", "invalid", "content", "attr", "softish", "double", "swap", "swap"])
+        k = rng.choice(["unknown", "misplaced", "invalid", "content", "attr", "softish", "double", "swap", "swap", "surrogate"])
         if k == "unknown":
             tgt[8].insert(rng.randint(0, len(tgt[8])), impl.T(rng.choice(["zzUnknown", "bogus"]), "x", [impl.T("surName", "y")]))
         elif k == "misplaced":
@@ -45,6 +45,11 @@ def plant(t, rng, tg, n):
                 tgt[8].pop(rng.randrange(len(tgt[8])))
         elif k == "content":
             tgt[2] = rng.choice([None, "", "unexpected text", "nan", "12"])
+        elif k == "surrogate":
+            # text that cannot be encoded (a lone surrogate, as JSON "\\udc80" loads): strict pruning validates it like any other
+            typed = [x for x in nodes if any(cr in ("uriContent", "floatContent", "timeContent", "yearDateContent", "intContent")
+                                             for cr in (tg.ri.rules.get(tg.ri.mappings.get(x[1], ""), [{}, [], {}])[2].get("content_rules", [])))]
+            (rng.choice(typed) if typed and rng.random() < 0.8 else tgt)[2] = rng.choice(["\udc80", "http://a.b/\udc80", "\ud800x", "12\udfff"])
         elif k == "attr":
             if not any(kv[0] == "zzAttr" for kv in tgt[5]):
                 tgt[5].append(["zzAttr", "1"])
@@ -215,6 +220,8 @@ def run(ctx):
         dist["nothing_removed"] += (not lst)
         for _, f in lst:
             dist["reasons"][f] = dist["reasons"].get(f, 0) + 1
+        if any(x[2] and any(0xD800 <= ord(ch) <= 0xDFFF for ch in x[2]) for _, x in gen.nodes_of(orig)):
+            continue                      # lone surrogates cannot be sent to the model driver (UTF-8): judged by the oracle only
         reqs.append({"op": "prune", "tree": orig, "strict": strict})
         # the discarded subtrees themselves, as they are when they leave the tree (model: removedT; the returned list is a
         # permutation of their roots - theorem C15_list_is_removed)
